@@ -296,7 +296,7 @@ func c02ServiceEqual(a, b Service) bool {
 		return ok && c02DevEqual(&x.DeviceHardware, &y.DeviceHardware) && c02FamEqual(&x.SupportedServices, &y.SupportedServices)
 	case *UnknownService:
 		y, ok := b.(*UnknownService)
-		return ok && x.service == y.service && bytes.Equal(x.Data, y.Data)
+		return ok && x.Service() == y.Service() && bytes.Equal(x.Data, y.Data)
 	}
 	return false
 }
